@@ -7,6 +7,7 @@ import (
 	"bytes"
 	"fmt"
 	"io"
+	"slices"
 	"sort"
 	"strings"
 
@@ -343,11 +344,76 @@ func colsOfRows(fc *fcase, rows []parquet.Row) []fcol {
 	return cols
 }
 
+// projection: the columns of the target schema of the conversion on the way
+// (valid, ascending, without repetitions); nil when there is none.
+func (fc *fcase) projection() (proj []int) {
+	for _, i := range fc.Project {
+		if i >= 0 && i < len(fc.Cols) && !slices.Contains(proj, i) {
+			proj = append(proj, i)
+		}
+	}
+	sort.Ints(proj)
+	return proj
+}
+
+// convertedSortingWhy: the sorting columns a converted row group declares are
+// columns of its schema, are a leading part of what may be declared (kept), and
+// are true of the rows it yields.
+func convertedSortingWhy(proj []int, tcols []fcol, rg parquet.RowGroup, kept []format.SortingColumn) (class, why string) {
+	var sc []format.SortingColumn
+	for _, s := range rg.SortingColumns() {
+		path := s.Path()
+		j := -1
+		for t, i := range proj {
+			if len(path) == 1 && path[0] == colName(i) {
+				j = t
+			}
+		}
+		if j < 0 {
+			return "sorting-not-declared", fmt.Sprintf("it declares the sorting column %v which its schema lacks", path)
+		}
+		sc = append(sc, format.SortingColumn{ColumnIdx: int32(j), Descending: s.Descending(), NullsFirst: s.NullsFirst()})
+	}
+	if len(sc) > len(kept) || !slices.Equal(sc, kept[:len(sc)]) {
+		return "sorting-differs", fmt.Sprintf("it declares the sorting columns %s, the rows are known to be sorted by %s only", showSorting(sc), showSorting(kept))
+	}
+	if len(sc) == 0 {
+		return "", ""
+	}
+	rows, err := readAllRows(rg)
+	if err != nil {
+		return "file-read-error", "reading its rows: " + err.Error()
+	}
+	vals := make([][]parquet.Value, len(tcols))
+	for _, row := range rows {
+		for _, v := range row {
+			if ci := v.Column(); ci >= 0 && ci < len(vals) {
+				vals[ci] = append(vals[ci], v)
+			}
+		}
+	}
+	for _, s := range sc {
+		if tcols[s.ColumnIdx].Rep != "rep" && len(vals[s.ColumnIdx]) != len(rows) {
+			return "file-read-error", fmt.Sprintf("its %d rows hold %d values of column %d", len(rows), len(vals[s.ColumnIdx]), s.ColumnIdx)
+		}
+	}
+	if why := sortedWhy(tcols, sc, vals); why != "" {
+		return "sorting-claim-false", fmt.Sprintf("it declares the sorting columns %s but %s", showSorting(sc), why)
+	}
+	return "", ""
+}
+
 // viaCheck: the rows sorted in source row groups that declare their sorting
 // columns, written through Writer.WriteRowGroup; every statistic of the file
 // is checked as for a written file, and the sorting columns recorded for each
 // row group must be the declaration and be true of the rows.
 func viaCheck(c *core.Ctx, fc *fcase) (ok bool) {
+	if len(fc.Project) > 0 && (fc.Sort != "" || fc.SkipBounds) {
+		// the options that name columns of the source schema do not go with a conversion
+		t := *fc
+		t.Sort, t.SkipBounds = "", false
+		fc = &t
+	}
 	fail := func(class, what string) bool {
 		c.Violation(class, "via "+fc.Via+": "+what, fc)
 		return false
@@ -442,10 +508,47 @@ func viaCheck(c *core.Ctx, fc *fcase) (ok bool) {
 			}
 			sources = append(sources, rg)
 		}
-		if fc.Via == "multi" && len(sources) >= 2 {
-			sources = []parquet.RowGroup{parquet.MultiRowGroup(sources...)}
+	}
+	// the conversion on the way: each source row group behind ConvertRowGroup
+	target, tcols := s, cols
+	if proj := fc.projection(); proj != nil {
+		var e string
+		if target, e = fc.schemaOf(proj); e != "" {
+			return fail("file-write-error", "target schema: "+e)
+		}
+		conv, err := parquet.Convert(target, s)
+		if err != nil {
+			return fail("file-write-error", "Convert: "+err.Error())
+		}
+		tcols = make([]fcol, len(proj))
+		for j, i := range proj {
+			tcols[j] = cols[i]
+		}
+		// what may be declared for the converted rows: the sorting columns
+		// before the first one that the target lacks
+		var kept []format.SortingColumn
+		for _, sc := range want {
+			j := slices.Index(proj, int(sc.ColumnIdx))
+			if j < 0 {
+				break
+			}
+			sc.ColumnIdx = int32(j)
+			kept = append(kept, sc)
+		}
+		exp.want = kept
+		if len(kept) < len(want) {
 			exp.optional = true
 		}
+		for i := range sources {
+			sources[i] = parquet.ConvertRowGroup(sources[i], conv)
+			if class, why := convertedSortingWhy(proj, tcols, sources[i], kept); why != "" {
+				ok = fail(class, fmt.Sprintf("source row group %d converted to columns %v: %s", i, proj, why))
+			}
+		}
+	}
+	if fc.Via == "multi" && len(sources) >= 2 {
+		sources = []parquet.RowGroup{parquet.MultiRowGroup(sources...)}
+		exp.optional = true
 	}
 	if fc.MaxRows > 0 && int64(maxGroup) > fc.MaxRows {
 		// cut on the way: the parts written before the last one carry no declaration
@@ -456,7 +559,7 @@ func viaCheck(c *core.Ctx, fc *fcase) (ok bool) {
 		exp = fc.writerSortExpect()
 	}
 	var out bytes.Buffer
-	w := parquet.NewWriter(&out, fc.options(s)...)
+	w := parquet.NewWriter(&out, fc.options(target)...)
 	copied, columns := parquet.VerifCopyPathCount(), parquet.VerifReencodePathCount()
 	var total int64
 	for _, rg := range sources {
@@ -479,8 +582,14 @@ func viaCheck(c *core.Ctx, fc *fcase) (ok bool) {
 	case parquet.VerifReencodePathCount() > columns:
 		label = "wrg-columns"
 	}
-	if !checkFile(c, fc, out.Bytes(), label, cols, exp) {
+	if !checkFile(c, fc, out.Bytes(), label, tcols, exp) {
 		ok = false
+	}
+	if fc.projection() != nil {
+		label += "/converted"
+		if len(exp.want) < len(want) {
+			label += "-keys-lost"
+		}
 	}
 	desc, nf := "", ""
 	for _, k := range fc.Keys {
@@ -691,6 +800,60 @@ func transferSweep(c *core.Ctx) {
 	}
 }
 
+// convertSweep: every way into Writer.WriteRowGroup with a conversion of the
+// source row groups on the way. Four columns whose values repeat (so that the
+// later sorting columns decide the order of many rows), three of them sorting
+// columns in a random order of precedence; the target schema lacks the first,
+// the second, the third sorting column, the first two, the column that is not
+// a sorting column, or nothing.
+func convertSweep(c *core.Ctx) {
+	small := []string{"int8", "bool", "uint16", "int32", "date", "flba5", "decflba", "float"}
+	for round := c.N(1, 3); round > 0; round-- {
+		for vi, via := range vias {
+			for shape := 0; shape < 6; shape++ {
+				n := 40 + c.Rng.Intn(50)
+				fc := &fcase{PageBuf: []int{16, 64, 256}[c.Rng.Intn(3)], Limit: 16, V2: c.Rng.Intn(2) == 0, Batch: 1,
+					Via: via, SrcGroups: 1 + c.Rng.Intn(3), SrcCfg: c.Rng.Intn(2) == 0}
+				if via == "split" {
+					fc.MaxRows = int64(2 + c.Rng.Intn(n/fc.SrcGroups))
+				}
+				for j := 0; j < 4; j++ {
+					k := kindByName[small[(vi+shape+3*j+c.Rng.Intn(2))%len(small)]]
+					rep := []string{"req", "opt"}[c.Rng.Intn(2)]
+					// a few distinct values per column: runs of a constant, short walks
+					rows := genColumnSaw(c, k, rep, n, 2+c.Rng.Intn(6), false)
+					if j < 2 {
+						// the sorting columns of higher precedence: 2-4 distinct values
+						d := 2 + c.Rng.Intn(3)
+						for r := range rows {
+							if rows[r][0] != "N" {
+								rows[r] = []string{k.tok(k.Domain[c.Rng.Intn(d)%len(k.Domain)])}
+							}
+						}
+					}
+					fc.Cols = append(fc.Cols, fcol{Kind: k.Name, Rep: rep, Dict: canDict(k) && c.Rng.Intn(3) == 0, Rows: rows})
+				}
+				// precedence: the two columns of few values first (in either order), then one of the others
+				perm := []int{0, 1, 2 + c.Rng.Intn(2)}
+				if c.Rng.Intn(2) == 0 {
+					perm[0], perm[1] = 1, 0
+				}
+				for _, ci := range perm {
+					fc.Keys = append(fc.Keys, skey{Col: ci, Desc: c.Rng.Intn(2) == 0, NullsFirst: c.Rng.Intn(2) == 0})
+				}
+				other := 5 - perm[2]
+				drop := [][]int{{perm[0]}, {perm[1]}, {perm[2]}, {perm[0], perm[1]}, {other}, {}}[shape]
+				for ci := 0; ci < 4; ci++ {
+					if !slices.Contains(drop, ci) {
+						fc.Project = append(fc.Project, ci)
+					}
+				}
+				fileRun(c, fc)
+			}
+		}
+	}
+}
+
 // randVia turns a random file case into a WriteRowGroup case.
 func randVia(c *core.Ctx, fc *fcase) {
 	fc.Via = vias[c.Rng.Intn(len(vias))]
@@ -710,10 +873,22 @@ func randVia(c *core.Ctx, fc *fcase) {
 		}
 	}
 	c.Rng.Shuffle(len(cand), func(i, j int) { cand[i], cand[j] = cand[j], cand[i] })
-	nkeys := 1 + c.Rng.Intn(2)
+	nkeys := 1 + c.Rng.Intn(3)
 	for i := 0; i < len(cand) && i < nkeys; i++ {
 		col := &fc.Cols[cand[i]]
 		stripNaN(c, kindByName[col.Kind], col.Rows)
 		fc.Keys = append(fc.Keys, skey{Col: cand[i], Desc: c.Rng.Intn(2) == 0, NullsFirst: c.Rng.Intn(2) == 0})
+	}
+	// one case in three of several columns: a conversion to some of the columns on the way
+	if len(fc.Cols) >= 2 && c.Rng.Intn(3) == 0 {
+		for i := range fc.Cols {
+			if c.Rng.Intn(3) != 0 {
+				fc.Project = append(fc.Project, i)
+			}
+		}
+		if len(fc.Project) == 0 {
+			fc.Project = []int{c.Rng.Intn(len(fc.Cols))}
+		}
+		fc.Sort, fc.SkipBounds = "", false
 	}
 }
